@@ -61,6 +61,14 @@ func init() {
 func (e *Engine) hasStub(name string) bool { return stubNames[name] }
 
 func (e *Engine) mkErr(text string, wraps ...Value) Iface {
+	where := ""
+	if e.curInstr != nil {
+		where = fmt.Sprintf(" [%s @ %s]", e.curInstr.Parent(), e.prog.Fset.Position(e.curInstr.Pos()))
+	}
+	e.errLog = append(e.errLog, text+where)
+	if len(e.errLog) > 4 {
+		e.errLog = e.errLog[len(e.errLog)-4:]
+	}
 	return Iface{typ: e.fake("err"), val: PtrV{cell: e.newCell(ErrV{text: text, wraps: wraps}, "err:"+text)}}
 }
 
@@ -108,7 +116,11 @@ func (e *Engine) nodeKey(n *Node, headOnly bool) string {
 	if n.wvar != nil {
 		w = n.wvar.id
 	}
-	fmt.Fprintf(&sb, "%d:%d:%d:%v", n.major, n.arg.id, w, n.indef)
+	ng := -1
+	if n.neg != nil {
+		ng = n.neg.id
+	}
+	fmt.Fprintf(&sb, "%d:%d:%d:%v:%d", n.major, n.arg.id, w, n.indef, ng)
 	if headOnly {
 		return sb.String()
 	}
